@@ -120,6 +120,7 @@ from vlib import wbspec, models
 from vlib.xl import compile_spec, exc_key
 jobs = json.load(sys.stdin)
 out = []
+live = []
 for idx, spec in jobs:
     res = {}
     try:
@@ -127,9 +128,21 @@ for idx, spec in jobs:
         for addr in spec['formulas'] + spec.get('ranges', []):
             v = models.safe_eval(model, addr)
             res[addr] = [type(v).__name__, repr(v)]
+        live.append((res, spec, model))
     except Exception as exc:
         res['<compile>'] = ['raises', exc_key(exc)]
     out.append([idx, res])
+# second phase: every model is still alive; write an input of each in turn
+# and evaluate it again (a model must not see the cells of a later one)
+for res, spec, model in live:
+    try:
+        addr = next(a for a in spec['inputs'] if a in model.cell_map)
+        model.set_value(addr, 7)
+        for addr in spec['formulas']:
+            v = models.safe_eval(model, addr)
+            res['after-write:' + addr] = [type(v).__name__, repr(v)]
+    except Exception as exc:
+        res['<second-phase>'] = ['raises', exc_key(exc)]
 json.dump(out, sys.stdout)
 '''
 
